@@ -42,14 +42,16 @@ from ..oracles import nearest_image as NI
 
 RULE = ("reference crystals fcc / bcc / hcp (c/a 1.55-1.9 incl. ideal) / B2 / L1_2 built by hand (unit cell -> "
         "System.rotate along a menu of integer vector sets incl. tilted cells -> supersize to >= 2.2 (cutoff + largest "
-        "displacement difference) per periodic width, 50-900 atoms), optionally rigidly rotated, shifted origin, "
-        "renumbered; cutoff anywhere inside one of the first three gaps between complete neighbour shells; deformation "
-        "F = R(I+E), rotation <= 8 deg, |E|_2 <= 0.03, applied to atoms and cell, then translated and re-wrapped into a "
-        "shifted cell; rigid slip of the half above a plane between two atomic layers (any layer gap, any of the three "
-        "cell faces, in-plane vector of any direction, |s| <= 0.4 nearest-neighbour distances, split between the halves). "
-        "Non-trivial: (F has both a rotation and a strain part, or the slip is not along a cell edge) and the crystal is "
-        "re-oriented, rigidly rotated or has two atom types; displacement clause: at least one atom changed its periodic "
-        "image; invariance clause: renumbered and translated")
+        "displacement difference) per cell width, 30-900 atoms), optionally rigidly rotated, shifted origin, renumbered, "
+        "under all 8 periodicity settings; cutoff anywhere inside one of the first three gaps between complete neighbour "
+        "shells; deformation F = R(I+E), rotation <= 8 deg, |E|_2 <= 0.03, applied to atoms and cell, then translated and "
+        "re-wrapped into a shifted cell; rigid slip of the half above a plane between two atomic layers (any layer gap, "
+        "any of the three cell faces, in-plane vector of any direction, |s| <= 0.4 nearest-neighbour distances, split "
+        "between the halves, cut axis open or periodic); displacement clause also random per-atom vectors, translations by "
+        "several cells and systems declaring different periodic axes.  Non-trivial: (F has both a rotation and a strain "
+        "part, or the slip is not along a cell edge) and the crystal is re-oriented, rigidly rotated or has two atom "
+        "types; displacement clause: at least one atom changed its periodic image (same crystal condition); invariance "
+        "clause: renumbered and translated")
 ASSUMPTIONS = ["numpy linear algebra is correct",
                "System.supersize / System.rotate build the crystal they document (judged by C04), Box keeps the cell it is given "
                "(C01), NeighborList lists exactly the pairs below the cutoff (C03): the check compares per-pair results against "
@@ -381,6 +383,21 @@ class strain_guard:
         return False
 
 
+def make_dd(am, s0, s1, reference, lazy, **nb):
+    """the three documented ways to the same object: everything at construction; construction without a list, then
+    solve(list); construction with the other reference, then solve(list, reference)"""
+    if lazy == 1:
+        dd = am.defect.DifferentialDisplacement(s0, s1, reference=reference)
+        require(dd.ddvectors is None, 'DifferentialDisplacement without neighbors/cutoff already holds ddvectors')
+        dd.solve(**nb)
+    elif lazy == 2:
+        dd = am.defect.DifferentialDisplacement(s0, s1, reference=1 - reference)
+        dd.solve(reference=reference, **nb)
+    else:
+        dd = am.defect.DifferentialDisplacement(s0, s1, reference=reference, **nb)
+    return dd
+
+
 def amax(x):
     x = np.asarray(x)
     return float(np.abs(x).max()) if x.size else 0.0
@@ -395,34 +412,35 @@ def oracle_displacement(case):
     rc, dnn, _, _ = choose_cutoff(xt, case['shells'], 0.01, 1.05, False)
     mode = case['mode']
     labels = {'mode_' + mode, 'boxref_' + case['boxref']}
+    r = build_ref(xt, 2.2 * (rc + 0.45 * dnn))
     if mode == 'slip':
-        r = build_ref(xt, 2.2 * (rc + 0.45 * dnn))
         sd = slip_setup(r, case['slip'], dnn)
         pbc = sd['pbc']
+    # the deformed system may declare other periodic axes than the reference ('final' documents system_1's box and
+    # pbc, 'initial' system_0's); it is wrapped along its own periodic axes
+    pbc1 = [bool(x) for x in case['pbc1']] if (case.get('pbc1') is not None and mode != 'slip') else pbc
+    if mode == 'slip':
         pos1, origin1, shift = slipped(r, sd, case['slip'])
         vects1, u = r.vects, sd['u']
+    elif mode == 'F':
+        F, hasrot, hasE = gradient(case['F'])
+        pos1, vects1, origin1, u, shift = deform(r, F, case['move'], pbc1)
+        if hasrot and hasE:
+            labels.add('F_both')
     else:
-        r = build_ref(xt, 2.2 * (rc + 0.45 * dnn))
-        if mode == 'F':
-            F, hasrot, hasE = gradient(case['F'])
-            pos1, vects1, origin1, u, shift = deform(r, F, case['move'], pbc)
-            if hasrot and hasE:
-                labels.add('F_both')
-        else:
-            wmin = DR.min_width(r.vects, pbc)
-            scale = wmin if np.isfinite(wmin) else DR.perp_widths(r.vects).min()
-            rnd = DR.uniform(3 * r.natoms, case['useed']).reshape(-1, 3) * (case['amp'] * scale / math.sqrt(3.0))
-            u = rnd
-            if mode == 'big':
-                u = u + np.array(case['bigt'], dtype=float) @ r.vects
-            pos1 = r.pos + u
-            vects1 = r.vects
-            bs = np.array([case['move']['boxshift'][k] if pbc[k] else 0.0 for k in range(3)])
-            origin1 = r.origin + bs @ vects1
-            pos1, shift = DR.wrap(pos1, vects1, origin1, pbc)
+        wmin = min(DR.min_width(r.vects, pbc), DR.min_width(r.vects, pbc1))
+        scale = wmin if np.isfinite(wmin) else DR.perp_widths(r.vects).min()
+        u = DR.uniform(3 * r.natoms, case['useed']).reshape(-1, 3) * (case['amp'] * scale / math.sqrt(3.0))
+        if mode == 'big':
+            u = u + np.array(case['bigt'], dtype=float) @ r.vects
+        pos1 = r.pos + u
+        vects1 = r.vects
+        bs = np.array([case['move']['boxshift'][k] if pbc1[k] else 0.0 for k in range(3)])
+        origin1 = r.origin + bs @ vects1
+        pos1, shift = DR.wrap(pos1, vects1, origin1, pbc1)
     labels |= xtal_labels(r)
     s0 = mk_system(r.pos, r.atype, r.vects, r.origin, pbc)
-    s1 = mk_system(pos1, r.atype, vects1, origin1, pbc)
+    s1 = mk_system(pos1, r.atype, vects1, origin1, pbc1)
     if not (box_kept(s0, r.vects, r.origin) and box_kept(s1, vects1, origin1)):
         return labels | {'box_zeroed_skip'}
     br = case['boxref']
@@ -437,20 +455,25 @@ def oracle_displacement(case):
     raw = pos1 - r.pos
     scale = amax(r.pos) + amax(pos1) + amax(vects1)
     tol = TOL + 64 * DR.EPS * scale
+    if pbc1 != pbc:
+        labels.add('pbc_differ')
+    if np.any(shift != 0):
+        labels.add('rewrapped')
     if br == 'none':
         err = amax(got - raw)
         require(err <= tol, lambda: 'displacement(box_reference=None) differs from pos1 - pos0 by %.3g' % err)
-        if np.any(shift != 0):
-            labels.add('rewrapped')
-        return labels | {'nt'} if r.reoriented or r.twotype else labels
-    Vsel = r.vects if br == 'initial' else vects1
+        return labels | {'nt'} if ('rewrapped' in labels and (r.reoriented or r.twotype)) else labels
+    Vsel, psel = (r.vects, pbc) if br == 'initial' else (vects1, pbc1)
     same_box = amax(vects1 - r.vects) == 0.0
-    wmin = DR.min_width(Vsel, pbc)
+    wmin = DR.min_width(Vsel, psel)
     ulen = np.linalg.norm(u, axis=1)
-    # ... and it is one of the 27 candidates dvect documents to compare (the wrapped atom is at most one cell away)
-    direct = (ulen < 0.45 * wmin) & (same_box or br != 'initial') & (np.abs(shift).max(axis=1) <= 1)
-    # (a) the property: the imposed displacement itself wherever it is shorter than half the smallest periodic width
-    #     (then it is the unique shortest member of its class modulo the reference cell)
+    npsel = ~np.array(psel)
+    # (a) the property: the imposed displacement itself, wherever it is shorter than half the smallest periodic width
+    #     (then it is the unique shortest member of its class modulo the chosen cell), it differs from pos1 - pos0 by
+    #     cell vectors of the chosen cell along the chosen periodic axes only, and it is one of the 27 candidates
+    #     dvect documents to compare (at most one cell vector per axis)
+    direct = ((ulen < 0.45 * wmin) & (same_box or br != 'initial') & (np.abs(shift).max(axis=1) <= 1)
+              & (np.abs(shift[:, npsel]).sum(axis=1) == 0))
     if direct.any():
         err = np.abs(got[direct] - u[direct]).max(axis=1)
         bad = np.nonzero(err > tol)[0]
@@ -458,34 +481,29 @@ def oracle_displacement(case):
                 % (br, np.nonzero(direct)[0][bad[0]], got[direct][bad[0]].tolist(), u[direct][bad[0]].tolist(),
                    ulen[direct][bad[0]], 0.5 * wmin))
         labels.add('direct')
-    # (b) elsewhere: the true nearest image of pos1 - pos0 under the chosen cell (exhaustive search), ties exempt
+    # (b) elsewhere: the true nearest image of pos1 - pos0 under the chosen cell and periodicity (exhaustive search
+    #     with proven radius).  C02: the result is an image and never longer than any of the 27 candidates; so when the
+    #     strict global minimum is one of those 27 it must be the result.  Ties and minima further away are exempt.
     rest = np.nonzero(~direct)[0]
     if len(rest):
-        ni = NI.NearestImage(Vsel, pbc)
-        orth = NI.is_orthogonal_exact(Vsel)
-        srel0 = DR.rel_coords(r.pos, Vsel, np.asarray(s0.box.origin if br == 'initial' else s1.box.origin))
-        srel1 = DR.rel_coords(pos1, Vsel, np.asarray(s0.box.origin if br == 'initial' else s1.box.origin))
-        inside = np.all((srel0 >= -1e-9) & (srel0 <= 1 + 1e-9) & (srel1 >= -1e-9) & (srel1 <= 1 + 1e-9) | ~np.array(pbc), axis=1)
+        ni = NI.NearestImage(Vsel, psel)
         nchk = 0
-        for i in rest[:120]:
+        for i in rest[:150]:
             res = ni.search(raw[i])
             if res['ntie'] > 1:
                 labels.add('tie_exempt')
                 continue
-            # C02's premise for "is the true nearest image": both points in the cell and (orthogonal or below half width)
-            if not (inside[i] and (orth or res['L'] < 0.5 * wmin)):
-                labels.add('premise_exempt')
+            if np.abs(res['n']).max() > 1:
+                labels.add('beyond27_exempt')
                 continue
             nchk += 1
             err = amax(got[i] - res['vec'])
-            require(err <= tol, lambda: 'displacement(%s) of atom %d is %r, nearest image of pos1-pos0 is %r'
+            require(err <= tol, lambda: 'displacement(%s) of atom %d is %r, nearest image of pos1-pos0 (one of the 27 candidates) is %r'
                     % (br, i, got[i].tolist(), res['vec'].tolist()))
         if nchk:
             labels.add('searched')
-    if np.any(shift != 0):
-        labels.add('rewrapped')
-        if r.reoriented or r.twotype:
-            labels.add('nt')
+    if 'rewrapped' in labels and (r.reoriented or r.twotype):
+        labels.add('nt')
     if not same_box:
         labels.add('box_differs')
     return labels
@@ -501,6 +519,37 @@ def expected_strain(F):
     i1, i2, i3 = DR.invariants(e)
     av = math.sqrt(w[0, 1] ** 2 + w[0, 2] ** 2 + w[1, 2] ** 2)
     return Gx, e, w, i1, i2, i3, av
+
+
+def _judge_class(N, Gg, res, dct, Gx, e, w, i1, i2, i3, av, good, goodnb, per):
+    require(Gg.shape == (N, 3, 3), lambda: 'Strain.G has shape %r' % (Gg.shape,))
+    errG = np.abs(Gg - Gx).reshape(N, -1).max(axis=1)
+    bad = np.nonzero(good & ~(errG <= TOL))[0]
+    require(len(bad) == 0, lambda: 'Strain.G of atom %d (of %d failing; %d neighbours) differs from F^-T by %.3g:\nG =\n%r\nF^-T =\n%r'
+            % (bad[0], len(bad), len(per[bad[0]][0]), errG[bad[0]], Gg[bad[0]], Gx))
+    for name, exp in (('strain', e), ('rotation', w)):
+        got = res[name]
+        require(got.shape == (N, 3, 3), lambda: 'Strain.%s has shape %r' % (name, got.shape))
+        err = np.abs(got - exp).reshape(N, -1).max(axis=1)
+        bad = np.nonzero(good & ~(err <= TOL))[0]
+        require(len(bad) == 0, lambda: 'Strain.%s of atom %d differs from %s(I - F^-T) by %.3g:\n%r\nexpected\n%r'
+                % (name, bad[0], 'sym' if name == 'strain' else 'skew', err[bad[0]], got[bad[0]], exp))
+    for name, exp in (('invariant1', i1), ('invariant2', i2), ('invariant3', i3), ('angularvelocity', av)):
+        got = res[name]
+        require(got.shape == (N,), lambda: 'Strain.%s has shape %r' % (name, got.shape))
+        err = np.abs(got - exp)
+        bad = np.nonzero(good & ~(err <= TOL))[0]
+        require(len(bad) == 0, lambda: 'Strain.%s of atom %d is %.12g, expected %.12g from the strain/rotation of F^-T'
+                % (name, bad[0], got[bad[0]], exp))
+    nye = res['nye']
+    require(nye.shape == (N, 3, 3), lambda: 'Strain.nye has shape %r' % (nye.shape,))
+    errN = np.abs(nye).reshape(N, -1).max(axis=1)
+    bad = np.nonzero(goodnb & ~(errN <= TOL))[0]
+    require(len(bad) == 0, lambda: 'Nye tensor of atom %d under a homogeneous deformation is %.3g (should vanish):\n%r'
+            % (bad[0], errN[bad[0]], nye[bad[0]]))
+    for k in ('strain', 'invariant1', 'invariant2', 'invariant3', 'angularvelocity', 'nye'):
+        require(k in dct and np.array_equal(np.asarray(dct[k]), res[k], equal_nan=True),
+                lambda: 'Strain.asdict()[%r] differs from the property of that name' % k)
 
 
 def oracle_strain(case):
@@ -625,40 +674,23 @@ def oracle_strain(case):
                 st = am.defect.Strain(s1, cutoff=rc, p_vectors=pv, axes=wrap_axes, **kw)
             else:
                 st = am.defect.Strain(s1, cutoff=rc, p_vectors=pv, **kw)
-        with strain_guard(single_list and wrap_axes is None, few):
-            Gg = np.array(st.G)
-        res = {k: np.array(getattr(st, k)) for k in ('strain', 'rotation', 'invariant1', 'invariant2', 'invariant3',
-                                                    'angularvelocity', 'nye')}
-        dct = st.asdict()
+        # a listed defect of the class must not hide the function form and the differential displacements: the keyed
+        # violation is kept and raised after everything that does not depend on the class has been judged
+        pending = None
+        try:
+            with strain_guard(single_list and wrap_axes is None, few):
+                Gg = np.array(st.G)
+        except Violation as v:
+            if v.key not in (KEY_READONLY, KEY_ONENBR):
+                raise
+            pending = v
+        if pending is None:
+            res = {k: np.array(getattr(st, k)) for k in ('strain', 'rotation', 'invariant1', 'invariant2', 'invariant3',
+                                                        'angularvelocity', 'nye')}
+            dct = st.asdict()
     Gx, e, w, i1, i2, i3, av = expected_strain(F)
-    require(Gg.shape == (N, 3, 3), lambda: 'Strain.G has shape %r' % (Gg.shape,))
-    errG = np.abs(Gg - Gx).reshape(N, -1).max(axis=1)
-    bad = np.nonzero(good & ~(errG <= TOL))[0]
-    require(len(bad) == 0, lambda: 'Strain.G of atom %d (of %d failing; %d neighbours) differs from F^-T by %.3g:\nG =\n%r\nF^-T =\n%r'
-            % (bad[0], len(bad), len(per[bad[0]][0]), errG[bad[0]], Gg[bad[0]], Gx))
-    for name, exp in (('strain', e), ('rotation', w)):
-        got = res[name]
-        require(got.shape == (N, 3, 3), lambda: 'Strain.%s has shape %r' % (name, got.shape))
-        err = np.abs(got - exp).reshape(N, -1).max(axis=1)
-        bad = np.nonzero(good & ~(err <= TOL))[0]
-        require(len(bad) == 0, lambda: 'Strain.%s of atom %d differs from %s(I - F^-T) by %.3g:\n%r\nexpected\n%r'
-                % (name, bad[0], 'sym' if name == 'strain' else 'skew', err[bad[0]], got[bad[0]], exp))
-    for name, exp in (('invariant1', i1), ('invariant2', i2), ('invariant3', i3), ('angularvelocity', av)):
-        got = res[name]
-        require(got.shape == (N,), lambda: 'Strain.%s has shape %r' % (name, got.shape))
-        err = np.abs(got - exp)
-        bad = np.nonzero(good & ~(err <= TOL))[0]
-        require(len(bad) == 0, lambda: 'Strain.%s of atom %d is %.12g, expected %.12g from the strain/rotation of F^-T'
-                % (name, bad[0], got[bad[0]], exp))
-    nye = res['nye']
-    require(nye.shape == (N, 3, 3), lambda: 'Strain.nye has shape %r' % (nye.shape,))
-    errN = np.abs(nye).reshape(N, -1).max(axis=1)
-    bad = np.nonzero(goodnb & ~(errN <= TOL))[0]
-    require(len(bad) == 0, lambda: 'Nye tensor of atom %d under a homogeneous deformation is %.3g (should vanish):\n%r'
-            % (bad[0], errN[bad[0]], nye[bad[0]]))
-    for k in ('strain', 'invariant1', 'invariant2', 'invariant3', 'angularvelocity', 'nye'):
-        require(k in dct and np.array_equal(np.asarray(dct[k]), res[k], equal_nan=True),
-                lambda: 'Strain.asdict()[%r] differs from the property of that name' % k)
+    if pending is None:
+        _judge_class(N, Gg, res, dct, Gx, e, w, i1, i2, i3, av, good, goodnb, per)
     # the function form
     if case['wrapper'] and not few:
         if refmode == 'base':
@@ -687,7 +719,7 @@ def oracle_strain(case):
     # differential displacement of a homogeneous deformation: (F - I) d0 for every listed pair
     with warnings.catch_warnings():
         warnings.simplefilter('ignore')
-        dd = am.defect.DifferentialDisplacement(s0, s1, cutoff=rc, reference=case['ddref'])
+        dd = make_dd(am, s0, s1, case['ddref'], case.get('ddlazy', 0), cutoff=rc)
     Il, Jl = nlist_pairs(dd.neighbors, N)
     check_list('DifferentialDisplacement(reference=%d)' % case['ddref'], Il, Jl, N, I0, J0)
     lut = {int(k): n for n, k in enumerate((I0 * N + J0).tolist())}
@@ -711,12 +743,14 @@ def oracle_strain(case):
         labels.add('F_strain')
     if theta is not None:
         labels.add('theta_given')
+    if pending is not None:
+        raise pending
     return labels
 
 
 # ----------------------------------------------------------------------------- slip
 
-def _dd_check(am, what, s0, s1, r, pos1, pbc, rc, u, reference, nbrmode, labels):
+def _dd_check(am, what, s0, s1, r, pos1, pbc, rc, u, reference, nbrmode, labels, lazy=0):
     """DifferentialDisplacement on (s0, s1): per listed pair u_j - u_i, centres and directions in the reference system"""
     N = r.natoms
     refpos = r.pos if reference == 0 else pos1
@@ -724,9 +758,9 @@ def _dd_check(am, what, s0, s1, r, pos1, pbc, rc, u, reference, nbrmode, labels)
         warnings.simplefilter('ignore')
         if nbrmode == 'neighbors':
             nl = am.NeighborList(system=s0 if reference == 0 else s1, cutoff=rc)
-            dd = am.defect.DifferentialDisplacement(s0, s1, neighbors=nl, reference=reference)
+            dd = make_dd(am, s0, s1, reference, lazy, neighbors=nl)
         else:
-            dd = am.defect.DifferentialDisplacement(s0, s1, cutoff=rc, reference=reference)
+            dd = make_dd(am, s0, s1, reference, lazy, cutoff=rc)
     require(dd.reference == reference, lambda: '%s: reference is %r' % (what, dd.reference))
     Il, Jl = nlist_pairs(dd.neighbors, N)
     band = 1e-7 * rc
@@ -829,8 +863,10 @@ def oracle_slip(case):
     # ---- disregistry
     _disreg_check(am, 'disregistry', s0, s1, r, sd, case['m_angle'], case['n_flip'], case['plane_ofs'])
     # ---- differential displacement
-    _dd_check(am, 'DifferentialDisplacement(reference=%d, %s)' % (case['ddref'], case['ddnbr']), s0, s1, r, pos1, pbc, rc, u,
-              case['ddref'], case['ddnbr'], labels)
+    _dd_check(am, 'DifferentialDisplacement(reference=%d, %s, construction %d)' % (case['ddref'], case['ddnbr'], case.get('ddlazy', 0)),
+              s0, s1, r, pos1, pbc, rc, u, case['ddref'], case['ddnbr'], labels, case.get('ddlazy', 0))
+    if case.get('ddlazy', 0):
+        labels.add('dd_solve_later')
     labels.add('ddref%d' % case['ddref'])
     # ---- Nye tensor on a non-uniform G: class, function and -curl G must agree
     if case['nye']:
@@ -1087,21 +1123,21 @@ def oracle_invariance(case):
 
 
 CLAUSES = [
-    Clause('displacement', oracle_displacement, G17.displacement_cases, quick=640, thorough=12000,
+    Clause('displacement', oracle_displacement, G17.displacement_cases, quick=800, thorough=12000,
            min_share={'nt': 0.3, 'rewrapped': 0.4, 'direct': 0.25, 'box_differs': 0.08, 'searched': 0.05},
            desc='displacement() = imposed displacement through the periodic boundaries (homogeneous F with deformed cell, rigid slip, '
                 'random per-atom vectors up to 0.45 cell widths, translations by several cells), every box_reference setting'),
-    Clause('strain', oracle_strain, G17.strain_cases, quick=560, thorough=10000,
+    Clause('strain', oracle_strain, G17.strain_cases, quick=720, thorough=9000,
            min_share={'nt': 0.15, 'F_both': 0.2, 'subset_dup': 0.06, 'wrapper': 0.1, 'surface': 0.15, 'axes_given': 0.08,
                       'nbr_neighbors': 0.1, 'twotype': 0.15, 'theta_given': 0.15},
            desc='homogeneous F: Strain.G = F^-T at every atom with a 3-D neighbour set, strain/rotation/invariants/angular velocity, '
                 'zero Nye tensor, asdict, nye_tensor() function, (F-I).d0 differential displacements'),
-    Clause('slip', oracle_slip, G17.slip_cases, quick=560, thorough=10000,
+    Clause('slip', oracle_slip, G17.slip_cases, quick=720, thorough=9000,
            min_share={'nt': 0.15, 'slip_generic': 0.2, 'nye_class_vs_function': 0.12, 'nye_nonuniform': 0.12, 'cut_periodic': 0.1,
                       'inplane_open': 0.1, 'ddref1': 0.15, 'both_halves_move': 0.2},
            desc='rigid slip: slip_vector = n_across x relative displacement of the own half, disregistry = slip at every coordinate, '
                 'ddvectors = u_j - u_i per listed pair (both references), Nye tensor of class / function / own curl agree'),
-    Clause('invariance', oracle_invariance, G17.invariance_cases, quick=320, thorough=6000,
+    Clause('invariance', oracle_invariance, G17.invariance_cases, quick=400, thorough=5000,
            min_share={'nt': 0.25, 'cfg_slip': 0.2, 'cfg_F': 0.2, 'nye_compared': 0.5, 'rewrapped': 0.2},
            desc='all results unchanged (per-atom arrays permuted, pair list mapped) under a common translation with or without '
                 're-wrapping and a consistent renumbering'),
